@@ -21,6 +21,10 @@ class PathEnd(Exception):
     """The current path is infeasible or was deliberately ended (e.g. generic loop iteration)."""
 
 
+class NeedBranch(Exception):
+    """Raised in no-branch mode when an evaluation would need a path split."""
+
+
 class PyExc(Exception):
     """A Python exception raised by the interpreted program; .val is the exception object value."""
 
@@ -112,6 +116,8 @@ class State:
 
     def choose(self, conds) -> int:
         """Decision among alternatives guarded by `conds`; assumes the chosen guard."""
+        if getattr(self, "no_branch", 0):
+            raise NeedBranch()
         i = len(self.decisions)
         if i < len(self.prefix):
             c = self.prefix[i]
